@@ -77,6 +77,7 @@ void vp_set_thread(int tid) {
   vp_sp = vp_hp_end;
   vp_sp_end = vp_sp + VP_STACK_BYTES;
   vp_spurious_left = vp_spurious_cfg;
+  vp_hb_thread_start(tid);
 }
 
 /* saved bump pointers of the two logical threads of a sequentialised schedule */
@@ -120,13 +121,66 @@ static inline void vp_wr(uint64_t a, int sz, uint64_t v) {
 }
 
 #ifdef VP_HB
-void vp_hb_plain(uint64_t a, int is_write);
-void vp_hb_atomic(uint64_t a, int is_read, int is_write, int order);
-void vp_hb_fence(int order);
+/* ---- happens-before ghost (C04, Tier K only): vector clocks driven by the memory orders found in the IR.
+ * C[t] : thread-local clock (4 threads x 8 bit).  H[word] : release clock published at an atomic word (shadow scalar memory,
+ * generated next to VP_S*).  facq/frel : clocks pending for acquire / published by release fences.  Tracked plain variables
+ * (vp_hb_write/vp_hb_read, placed by the harness next to the real plain accesses) assert FastTrack's write->read and
+ * write->write conditions.  Explored executions are the sequentially consistent interleavings only (stated limit). */
+VP_THREAD_LOCAL uint8_t vp_vc[4], vp_facq[4], vp_frel[4];
+uint8_t vp_w_tid[4], vp_w_clk[4], vp_w_set[4];
+static inline uint32_t vp_pack(const uint8_t *c) { return (uint32_t)c[0] | ((uint32_t)c[1] << 8) | ((uint32_t)c[2] << 16) | ((uint32_t)c[3] << 24); }
+static inline uint8_t vp_comp(uint32_t p, int k) { return (uint8_t)(p >> (8 * k)); }
+static inline uint8_t vp_max8(uint8_t a, uint8_t b) { return a > b ? a : b; }
+void vp_hb_thread_start(int tid) {
+  for (int k = 0; k < 4; k++) { vp_vc[k] = 0; vp_facq[k] = 0; vp_frel[k] = 0; }
+  vp_vc[0] = 1;       /* everything the main thread did before spawning (the prologue) happens-before the thread */
+  vp_vc[tid & 3] = 1;
+}
+/* rel must have been read by the caller at the very top of its atomic section: CBMC yields unconstrained values for a shared
+ * variable that is first read inside a branch of an atomic section in which another branch writes it */
+#define VP_HB_REL(a) vp_hrd(((a) & (VP_BYTES - 1)) >> 3)
+static void vp_hb_atomic(uint64_t a, uint32_t rel, int is_read, int is_write, int order) {
+  uint64_t i = (a & (VP_BYTES - 1)) >> 3;
+  int acq = order == 2 || order == 4 || order == 5, rls = order == 3 || order == 4 || order == 5;
+  if (is_read) {
+    for (int k = 0; k < 4; k++) { if (acq) vp_vc[k] = vp_max8(vp_vc[k], vp_comp(rel, k)); else vp_facq[k] = vp_max8(vp_facq[k], vp_comp(rel, k)); }
+  }
+  if (is_write) {
+    uint8_t n[4];
+    for (int k = 0; k < 4; k++) {
+      uint8_t mine = rls ? vp_vc[k] : vp_frel[k];                 /* relaxed write publishes only what a release fence published */
+      n[k] = is_read ? vp_max8(vp_comp(rel, k), mine) : mine;     /* an RMW continues the release sequence, a store replaces it */
+    }
+    vp_hwr(i, vp_pack(n));
+  }
+  vp_vc[vp_tid & 3] = (uint8_t)(vp_vc[vp_tid & 3] + 1);
+}
+static void vp_hb_fence(int order) {
+  if (order == 2 || order == 4 || order == 5) for (int k = 0; k < 4; k++) vp_vc[k] = vp_max8(vp_vc[k], vp_facq[k]);
+  if (order == 3 || order == 4 || order == 5) for (int k = 0; k < 4; k++) vp_frel[k] = vp_vc[k];
+}
+void vp_hb_write(uint32_t id) {
+  id &= 3;
+  VP_ATOMIC_BEGIN();
+  if (vp_w_set[id]) VP_ASSERT(vp_w_clk[id] <= vp_vc[vp_w_tid[id] & 3], "C04 data race: two plain writes not ordered by happens-before");
+  vp_w_set[id] = 1; vp_w_tid[id] = (uint8_t)vp_tid; vp_w_clk[id] = vp_vc[vp_tid & 3];
+  VP_ATOMIC_END();
+}
+void vp_hb_read(uint32_t id) {
+  id &= 3;
+  VP_ATOMIC_BEGIN();
+  if (vp_w_set[id]) VP_ASSERT(vp_w_clk[id] <= vp_vc[vp_w_tid[id] & 3], "C04 data race / missing visibility: a plain read is not ordered after the write by happens-before");
+  VP_ATOMIC_END();
+}
+#define vp_hb_plain(a, w) ((void)0)
 #else
 #define vp_hb_plain(a, w) ((void)0)
-#define vp_hb_atomic(a, r, w, o) ((void)0)
+#define vp_hb_atomic(a, rel, r, w, o) ((void)0)
+#define VP_HB_REL(a) 0
 #define vp_hb_fence(o) ((void)0)
+void vp_hb_thread_start(int tid) {}
+void vp_hb_write(uint32_t id) {}
+void vp_hb_read(uint32_t id) {}
 #endif
 
 uint64_t vp_ld(uint64_t a, int sz) {
@@ -264,9 +318,10 @@ int vp_yield_to_pending(void) { return 0; }
 uint64_t vp_atomic_load(uint64_t a, int sz, int order) {
   vp_preempt_point();
   VP_ATOMIC_BEGIN();
+  uint32_t hrel = VP_HB_REL(a); (void)hrel;
   vp_chk(a, sz);
   uint64_t v = vp_rd(a, sz);
-  vp_hb_atomic(a, 1, 0, order);
+  vp_hb_atomic(a, hrel, 1, 0, order);
   VP_ATOMIC_END();
   return v;
 }
@@ -274,15 +329,17 @@ uint64_t vp_atomic_load(uint64_t a, int sz, int order) {
 void vp_atomic_store(uint64_t a, int sz, uint64_t v, int order) {
   vp_preempt_point();
   VP_ATOMIC_BEGIN();
+  uint32_t hrel = VP_HB_REL(a); (void)hrel;
   vp_chk(a, sz);
   vp_wr(a, sz, v);
-  vp_hb_atomic(a, 0, 1, order);
+  vp_hb_atomic(a, hrel, 0, 1, order);
   VP_ATOMIC_END();
 }
 
 uint64_t vp_atomic_rmw(int op, uint64_t a, int sz, uint64_t v, int order) {
   vp_preempt_point();
   VP_ATOMIC_BEGIN();
+  uint32_t hrel = VP_HB_REL(a); (void)hrel;
   vp_chk(a, sz);
   uint64_t old = vp_rd(a, sz), nw = 0;
   uint64_t m = vp_mask(sz);
@@ -301,7 +358,7 @@ uint64_t vp_atomic_rmw(int op, uint64_t a, int sz, uint64_t v, int order) {
     default: VP_FAIL("unknown atomicrmw op");
   }
   vp_wr(a, sz, nw & m);
-  vp_hb_atomic(a, 1, 1, order);
+  vp_hb_atomic(a, hrel, 1, 1, order);
   VP_ATOMIC_END();
   return old;
 }
@@ -313,15 +370,16 @@ struct vp_cas_res vp_cmpxchg(uint64_t a, int sz, uint64_t expect, uint64_t desir
   if (weak && vp_spurious_left > 0 && VP_NONDETBOOL()) { vp_spurious_left--; spurious = 1; }
   if (weak && vp_spurious_at >= 0) { if (vp_weak_seen == vp_spurious_at) spurious = 1; vp_weak_seen++; }
   VP_ATOMIC_BEGIN();
+  uint32_t hrel = VP_HB_REL(a); (void)hrel;
   vp_chk(a, sz);
   uint64_t m = vp_mask(sz);
   r.old = vp_rd(a, sz);
   if (!spurious && r.old == (expect & m)) {
     vp_wr(a, sz, desired & m);
-    vp_hb_atomic(a, 1, 1, so);
+    vp_hb_atomic(a, hrel, 1, 1, so);
     r.ok = 1;
   } else {
-    vp_hb_atomic(a, 1, 0, fo);
+    vp_hb_atomic(a, hrel, 1, 0, fo);
     r.ok = 0;
   }
   VP_ATOMIC_END();
